@@ -255,7 +255,8 @@ CHECKS = {
         "rule": ("kinds helper (rapid), helper-exhaustive (enumerated), sampling (enumerated configurations x N samples). non-trivial = input length >= 2 with a duplicate/tie, or a boundary argument (k in {0, >= n}, chunkSize <= 0, removal reaching the end, "
                  "extreme integer, already-wrapped error); sampling: n >= 2; distinct = distinct case JSON"),
         "assumptions": ["reference implementations in c19pure", "math/rand with fixed seeds", "rapid v1.3.0; go1.26.8"],
-        "jobs": [{"pkg": "c19pure", "kinds": ["helper", "helper-exhaustive", "sampling"], "scale_thorough": 10, "shards_thorough": 16}],
+        "jobs": [{"pkg": "c19pure", "run": "TestPure|TestHelperExhaustiveReplay|TestSampling", "kinds": ["helper", "helper-exhaustive", "sampling"], "scale_thorough": 10, "shards_thorough": 16},
+                 {"pkg": "c19pure", "race": True, "run": "TestSampleRace", "kinds": ["sample-race"], "scale_thorough": 4, "shards_thorough": 4}],
     },
     "C04": {
         "level": "exploration",
